@@ -103,7 +103,7 @@ def run(chk):
     chk.assumptions = ["an invalid value may be rejected with a runtime error or stored reduced to the field width (both allowed by the property)",
                        "the read-back after re-parsing is skipped when the new value makes the layer unparseable (IHL / data offset below 5 or beyond the capture)"]
     chk.floor = 900
-    chk.rule += '; plus sequences that finally re-type an outer layer, rejected assignments checked for an unchanged packet through the end filter, the inner layer read for the first time after the assignment, IPv6 headers with a damaged version nibble'
+    chk.rule += '; plus sequences that finally re-type an outer layer, rejected assignments checked for an unchanged packet through the end filter, the inner layer read for the first time after the assignment, IPv6 headers with a damaged version nibble, the filter-mode copies of a packet selected before and after the assignment'
     work = core.scratch_dir()
     try:
         jobs = []
@@ -204,6 +204,7 @@ def run(chk):
             meta[cid] = (stack, starts, frame, seq, touched, outp, inner_d)
         res = core.run_cases(cases)
         # second pass: re-read the written files
+        accepted_jobs = []
         cases2 = []
         verdicts = {}
         for cid, (stack, starts, frame, seq, touched, outp, inner_d) in meta.items():
@@ -335,6 +336,8 @@ def run(chk):
                               {"frame_hex": frame.hex(), "written_hex": written.hex() if written else None, "stack": stack,
                                "src": next(c.src for c in cases if c.id == cid)})
                 continue
+            if written is not None:
+                accepted_jobs.append((cid, stack, seq, frame, written))
             # (d) re-read after re-parsing (not when the sequence re-typed an outer layer: reading an inner layer by a name that
             # contradicts the new type is unspecified)
             retyped = any(x[1] in ("type", "proto", "nextheader") and any(d2 > d for d2, _ in seq) for d, x in seq)
@@ -373,6 +376,47 @@ def run(chk):
                     chk.violation("reread|%s.%s" % (x[0], x[1]), "%s.%s reads %s after writing and re-opening, assigned %s" % (x[0], x[1], show(g), x[5]),
                                   {"frame_hex": frame.hex(), "written_hex": written.hex()})
                     break
+        # ---- the other serialisation: in filter mode the packet is written once per selecting filter. Selected, assigned in an
+        # action, selected again: the first copy is the captured frame, every later copy carries the assignments (the bytes
+        # judged above), also when the packet was already serialised before the assignment
+        step = max(1, len(accepted_jobs) // (50 if quick else 700))
+        fscript = os.path.join(work, "fm.p2")
+        for n_f, (cid, stack, seq, frame, written) in enumerate(accepted_jobs[::step]):
+            ji = int(cid[1:])
+            inp = os.path.join(work, "i%d.pcap" % ji)
+            asg = " ".join("%s.%s = %s;" % (path_expr("($0)", stack, d), x[1], x[5]) for d, x in seq)
+            variant = n_f % 3
+            prog = ["@ true\n@ { %s }\n@ true\n" % asg,
+                    "@ true\n@ true\n@ { %s }\n@ true\n@ true\n" % asg,
+                    "@ { %s }\n@ true\n@ { %s.%s; }\n@ true\n" % (asg, path_expr("($0)", stack, seq[0][0]), seq[0][1][1])][variant]
+            n_before = [1, 2, 0][variant]
+            n_after = [1, 2, 2][variant]
+            with open(fscript, "w") as f:
+                f.write(prog)
+            with open(inp, "rb") as fi:
+                rr = core.run_binary([fscript], stdin_file=fi, release=(n_f % 2 == 1), timeout=30)
+            if rr["timeout"]:
+                chk.inconc("timeout (filter-mode copies)")
+                continue
+            if core.crashed(rr):
+                chk.violation("crash|filter-copies", "assigning between two selecting filters crashes the interpreter: %s" % rr["err"][-200:].decode("utf-8", "replace"),
+                              {"program": prog, "frame_hex": frame.hex()})
+                continue
+            try:
+                _, recs, _ = pkt.parse_pcap(rr["out"])
+            except Exception:
+                recs = None
+            chk.observed(("filter-copies", variant, stack[seq[0][0]], len(seq) > 1))
+            chk.count("filter_mode_copies_compared")
+            want = [frame] * n_before + [written] * n_after
+            got = [r[4] for r in recs] if recs is not None else None
+            if got != want:
+                k_ = next((i for i in range(min(len(got or []), len(want))) if got[i] != want[i]), None)
+                chk.violation("filter-copies|%d" % variant,
+                              "filter mode, the packet selected %d time(s) before and %d time(s) after the assignment(s) %s: %s" % (
+                                  n_before, n_after, asg, ("copy %d holds %s, expected %s" % (k_ + 1, got[k_].hex()[:160], want[k_].hex()[:160])) if k_ is not None
+                                  else "%s copies come out, expected %d (stderr %r)" % (len(got) if got is not None else "unreadable", len(want), rr["err"][-120:])),
+                              {"program": prog, "frame_hex": frame.hex(), "expected_after_hex": written.hex()})
         # ---- an assignment that is rejected with a runtime error leaves the packet unchanged: the packet is looked at
         # afterwards through the end filter, which still runs after a failed action
         BAD = {"mac": ["aa:bb:cc:dd:ee:gg", "aa:bb:cc:dd:ee", "aa:bb:cc:dd:ee:ff:00", "aa:bb:cc:dd:ee:1ff", "aa:bb:cc:dd:zz:ff", "aa:bb:cc:dd:ee:", "11-22-33-44-55-66", ""],
